@@ -135,3 +135,29 @@ class RangeServer:
     def close(self):
         self.httpd.shutdown()
         self.httpd.server_close()
+
+
+_relaxed = False
+
+
+def relax_timeouts(seconds=3):
+    """dclab uses hard 0.5 s socket timeouts (with 100 retries). On an oversubscribed machine
+    the in-process loopback server can be starved for longer than that; wall-clock must never
+    decide a verdict, so the transport (not dclab) is told to wait longer."""
+    global _relaxed
+    if _relaxed:
+        return
+    _relaxed = True
+    import requests.adapters
+    orig = requests.adapters.HTTPAdapter.send
+
+    def send(self, request, stream=False, timeout=None, **kw):
+        return orig(self, request, stream=stream, timeout=seconds, **kw)
+    requests.adapters.HTTPAdapter.send = send
+
+
+def is_transport_timeout(exc):
+    import requests
+    text = repr(exc)
+    return isinstance(exc, (requests.exceptions.Timeout, requests.exceptions.ConnectionError)) \
+        or "ReadTimeout" in text or "ConnectTimeout" in text or "ConnectionError" in text
